@@ -2,7 +2,7 @@
 Engine A (kernel algebra): tables extracted from the current sources, compared entry by entry
 with the definition in the property (Gell-Mann normalisation, layout, inverse pair)."""
 from guarded import same, explain
-from astdb import AnalysisBroken
+from astdb import AnalysisBroken, sig
 from interp import Interp, Obj, Cell, Ptr, Region, Thrown, Unsupported, ITE
 from kernels import KernelHooks, make_suv, GslMatrix, SUV
 from poly import Poly, CPoly, mat_mul, mat_trace, mat_zero, TOL
@@ -42,6 +42,10 @@ def check_conversion(db, rep):
                              'matrix entry set exactly once', 'set %d times' % cnt, fS['name'])
         if any(m.sets.get((r, c), 0) == 0 for r in range(d) for c in range(d)):
             continue
+        # one table for every input: an entry that takes a different form on part of the input space is not linear
+        for (r, c), e in sorted(getattr(m, 'guarded', {}).items()):
+            rep.fail('A.conv.cover', 'GetGSLMatrix/%d/(%d,%d)/linear' % (d, r, c), where,
+                     'homogeneous linear form in the components, for every input', 'entry depends on the input through a branch: %s' % (e,), fS['name'])
         # linearity (the table is a linear map of the components)
         for (r, c), e in m.entries.items():
             for part in (e.re, e.im):
@@ -149,6 +153,10 @@ def check_inverse(db, rep):
                         rep.ok('A.conv.prelude')
                 else:
                     region, hooks = basis.run_cfm(db, d, lambda r, c: S.entries[(r, c)].re, lambda r, c: S.entries[(r, c)].im)
+            except basis.HelperAbsent as e:
+                rep.notes.append('file-local helper %s is not part of the library (any more): the conversion is judged through the matrix constructor only' % e)
+                n -= 1
+                continue
             except Thrown as t:
                 rep.fail('A.conv.inverse', '%s/%d' % (site, d), unit.loc(t.node), 'conversion for dimension %d' % d,
                          'throw: %s' % t.what, fM['name'])
@@ -180,7 +188,7 @@ def check_inverse(db, rep):
                     region = comp.region
                 else:
                     region, hooks = basis.run_cfm(db, d, hre, him)
-            except Thrown as t:
+            except (Thrown, basis.HelperAbsent):
                 continue
             comps = [region.cell(k).value for k in range(d * d)]
             if not all(isinstance(c, Poly) for c in comps):
@@ -458,6 +466,52 @@ def check_imagset(db, rep):
     rep.floor('A.loop.imagset', n, 15)
 
 
+def check_entry_overloads(db, rep):
+    """A.elem.entry: every overload through which a sum, difference, negation or scalar multiple can be written (all value
+    categories of both operands, discovered from the class) hands its operands to the kernel in the right roles: the
+    expression evaluated into a fresh vector is a+b, a-b, -a, s*a with a the left operand"""
+    import lifecycle
+    unit = db.unit('instantiate')
+    n = 0
+    for label, op, f, how, cats in lifecycle.expr_shapes(db):
+        if op not in ELEM_F:
+            continue
+        for d in (2, 3):
+            n += 1
+            a, ra = make_suv('A', d, 'a')
+            b, rb = make_suv('B', d, 'b')
+            s = Poly.var('s')
+            it = Interp(unit, proxies.ProxyHooks())
+            try:
+                if how == 'm1':
+                    proxy = it.call(f, a, [b])
+                elif how == 'm0':
+                    proxy = it.call(f, a, [])
+                elif how == 'ms':
+                    proxy = it.call(f, a, [s])
+                elif how == 'fs':
+                    proxy = it.call(f, None, [s, a])
+                else:
+                    continue
+                tgt, hooks, cf = proxies.run_compute(db, op, proxy, d)
+            except Thrown as t:
+                rep.fail('A.elem.entry', '%s/%d' % (label, d), unit.loc(t.node), 'an expression object for operands of equal dimension', 'throw: %s' % t.what, f['name'])
+                continue
+            bad = None
+            for k in range(d * d):
+                want = ELEM_F[op](Poly.var('a%d' % k), Poly.var('b%d' % k), s)
+                got = tgt.cell(k).value
+                if not same(got, want):
+                    bad = (k, want, got)
+                    break
+            if bad:
+                rep.fail('A.elem.entry', '%s/%d' % (label, d), unit.loc(f), '%s evaluates to component %d = %s (a the left operand, b the right one)' % (label, bad[0], bad[1]),
+                         str(bad[2]), sig(f))
+            else:
+                rep.ok('A.elem.entry')
+    rep.floor('A.elem.entry', n, 24)
+
+
 def run(db, rep, tier):
     rep.trusted += ['clang 14 AST of /repo sources under the build flags', 'sqdump extractor + abstract interpreter (engine/interp.py)',
                     'mpmath 50-digit arithmetic; real-number semantics, decimal literals accepted within 4e-15 relative',
@@ -467,5 +521,6 @@ def run(db, rep, tier):
     check_inverse(db, rep)
     check_component_roundtrip(db, rep)
     n = check_elementwise(db, rep, tier)
+    check_entry_overloads(db, rep)
     rep.floor('A.elem.footprint', n, 4 * 5 * 3)
     check_loops(db, rep)
